@@ -179,6 +179,10 @@ def _validate(headers, key: str, subprotocols) -> tuple:
         r = headers.get(k, None)
         if not r:
             return False, None
+        # header tokens are ASCII: nothing else is folded or trimmed into them
+        # (str.lower() maps U+212A to "k", str.strip() removes U+00A0)
+        if not r.isascii():
+            return False, None
         r = [x.strip().lower() for x in r.split(",")]
         if v not in r:
             return False, None
@@ -191,7 +195,7 @@ def _validate(headers, key: str, subprotocols) -> tuple:
         subproto = subproto.lower()
 
     result = headers.get("sec-websocket-accept", None)
-    if not result:
+    if not result or not result.isascii():
         return False, None
     result = result.lower()
 
